@@ -484,6 +484,9 @@ func (f *Frame) applyContract(c *Contract, callee *ssa.Function, sig *types.Sign
 		reach = e.define(f.prefix+"r", "Bool", fmt.Sprintf("(and %s %s)", reach, goal))
 	}
 	// havoc modifies
+	if len(c.ModComps) > 0 {
+		e.havocMatching(st, c.ModComps)
+	}
 	for _, m := range c.Modifies {
 		for _, t := range e.modTargets(env, m) {
 			e.havocTarget(st, t)
